@@ -1,6 +1,7 @@
 package chain
 
 import (
+	"math"
 	"fmt"
 	"strings"
 
@@ -78,6 +79,10 @@ func DrawArgs(t *rapid.T, label string) []val.KV {
 			v = val.Str(rapid.SampledFrom([]string{"", "a", "abc", "foo", "foobar", "Alice", "bob@example.com"}).Draw(t, label+"_s"))
 		case 3:
 			v = val.Float(float64(rapid.IntRange(-4, 8).Draw(t, label+"_f")) + 0.5)
+			if rapid.IntRange(0, 5).Draw(t, label+"_fnf") == 3 {
+				// a float with no place in the order of the finite ones: the constructor takes it, the wire carries it
+				v = val.Float(rapid.SampledFrom([]float64{math.Inf(1), math.Inf(-1), math.NaN()}).Draw(t, label+"_fnfv"))
+			}
 		case 4:
 			v = val.Bool(rapid.Bool().Draw(t, label+"_b"))
 		default:
@@ -179,6 +184,9 @@ func drawStmtOnce(t *rapid.T, args []val.KV, want bool, label string) pol.Stmt {
 	case "float":
 		d := float64(rapid.IntRange(-2, 2).Draw(t, label+"_d"))
 		lit := val.Float(e.V.Float64() + d)
+		if f := e.V.Float64(); math.IsNaN(f) || math.IsInf(f, 0) {
+			lit = val.Float(100.5 * d)
+		}
 		op := rapid.SampledFrom([]string{"==", "<", "<=", ">", ">="}).Draw(t, label+"_op")
 		return pol.Stmt{Op: op, Sel: fs, Lit: &lit}
 	case "str":
